@@ -19,6 +19,7 @@ type Update struct {
 	Delete          bool            // a delete filter is present
 	DeleteSelector  reflect.Value   // *SelectorsType or invalid
 	DeleteElements  reflect.Value   // *ElementsType or invalid
+	PartialFirst    bool            // both filters: the partial one is listed first in the message (no meaning)
 }
 
 func (u Update) HasFilter() bool { return u.Partial || u.Delete }
